@@ -11,6 +11,8 @@ TEMPLATES = [
     "{% assign a = 'xxxx' %}{% assign b = a | append: a %}{% capture c %}{{ b }}{{ b }}{% endcapture %}{{ c | size }}", "{% include 'deep' %}", "{% tablerow i in (1..5) cols:2 %}{{ i }}{% endtablerow %}",
     "{% if x %}{% if x %}{% if x %}{% for i in (1..2) %}{% unless y %}{{ i }}{% endunless %}{% endfor %}{% endif %}{% endif %}{% endif %}", "{% capture z %}{% for i in (1..3) %}é{% endfor %}{% endcapture %}{{ z }}{{ z }}",
     "{% ifchanged %}{{ x }}{% endifchanged %}{% render 'p', i: 2 %}{% include 'deep' %}",
+    "{% if x %}{% capture g %}cap{{ x }}{% endcapture %}{% endif %}{{ g }}", "{% for i in (1..2) %}{% ifchanged %}{% capture h %}{{ i }}{% endcapture %}{% endifchanged %}{% endfor %}{{ h }}",
+    "line1\r\nline2\rline3",
 ]
 DATA = dict(x="žž", y=False, d=True)
 LIMITS = {"loop_iteration_limit": range(0, 16), "output_stream_limit": range(0, 40), "local_namespace_limit": list(range(0, 400, 13)) + [1], "context_depth_limit": range(0, 12), "block_nesting_limit": range(0, 8)}
